@@ -44,6 +44,13 @@ def _wrap_checks():
                 raise
               c.undecide(f.__name__, str(e))
               return 0
+            except (_NotConst, _Raised) as e:
+              # the finite evaluator met an expression outside its subset and the rule did not anticipate it: not decided
+              c = next((x for x in a if hasattr(x, "undecide")), None)
+              if c is None:
+                raise
+              c.undecide(f.__name__, f"an expression leaves the evaluable subset ({type(e).__name__}: {e})")
+              return 0
             except _SHAPE_ERRORS as e:
               # the checker itself tripped: on the reference tree that is a bug of the checker (traceback, exit 2);
               # on a tree that differs from the reference it is a shape the rule does not know
@@ -56,6 +63,8 @@ def _wrap_checks():
         setattr(m, attr, make(fn))
         _WRAPPED.add((name, attr))
 
+
+from .consteval import NotConst as _NotConst, Raised as _Raised
 
 _SHAPE_ERRORS = (KeyError, IndexError, AttributeError, TypeError, ValueError, StopIteration, AssertionError)
 
@@ -74,8 +83,8 @@ def _run_steps(mod, ctx):
   for st in fn.body:
     label = _ast.unparse(st).splitlines()[0][:100]
     handler = _ast.ExceptHandler(
-      type=_ast.Tuple(elts=[_ast.Name(id="AnalysisError", ctx=_ast.Load()), _ast.Name(id="NameError", ctx=_ast.Load())] + [_ast.Name(id=e_.__name__, ctx=_ast.Load()) for e_ in _SHAPE_ERRORS], ctx=_ast.Load()), name="_e",
-      body=[_ast.If(test=_ast.parse(f"(isinstance(_e, NameError) and not {fn.args.args[0].arg}.not_analysed) or (not isinstance(_e, (AnalysisError, NameError)) and not {fn.args.args[0].arg}.ix.differs_from_reference)", mode="eval").body, body=[_ast.Raise(exc=None, cause=None)], orelse=[]),
+      type=_ast.Tuple(elts=[_ast.Name(id="AnalysisError", ctx=_ast.Load()), _ast.Name(id="NameError", ctx=_ast.Load()), _ast.Name(id="_NotConst", ctx=_ast.Load()), _ast.Name(id="_Raised", ctx=_ast.Load())] + [_ast.Name(id=e_.__name__, ctx=_ast.Load()) for e_ in _SHAPE_ERRORS], ctx=_ast.Load()), name="_e",
+      body=[_ast.If(test=_ast.parse(f"(isinstance(_e, NameError) and not {fn.args.args[0].arg}.not_analysed) or (not isinstance(_e, (AnalysisError, NameError, _NotConst, _Raised)) and not {fn.args.args[0].arg}.ix.differs_from_reference)", mode="eval").body, body=[_ast.Raise(exc=None, cause=None)], orelse=[]),
             _ast.Expr(_ast.Call(func=_ast.Attribute(value=_ast.Name(id=fn.args.args[0].arg, ctx=_ast.Load()), attr="undecide", ctx=_ast.Load()),
                                 args=[_ast.Constant(label), _ast.Call(func=_ast.Name(id="str", ctx=_ast.Load()), args=[_ast.Name(id="_e", ctx=_ast.Load())], keywords=[])], keywords=[]))])
     body.append(_ast.Try(body=[st], handlers=[handler], orelse=[], finalbody=[]))
@@ -84,6 +93,7 @@ def _run_steps(mod, ctx):
   _ast.fix_missing_locations(tree)
   ns = dict(vars(mod))
   ns["AnalysisError"] = AnalysisError
+  ns["_NotConst"], ns["_Raised"] = _NotConst, _Raised
   exec(compile(tree, f"<stepwise {mod.__name__}.run>", "exec"), ns)
   ns["_run_stepwise"](ctx)
 
